@@ -79,6 +79,8 @@ def sym_values(ctx, pipe, deep=False):
         return {'x': ctx.sym_int('x'), 'e': S('e')}, None, None
     if pipe == 'pattern':
         return {'x': S('x'), 'y': ctx.sym_int('y'), 'z': ctx.sym_bool('z')}, None, None
+    if pipe == 'odd':
+        return {'x': S('x'), 'y': ctx.sym_int('y')}, None, None
     if pipe == 'kinds':
         k1 = S('k1')
         ctx.assume(k1 != 'class')
@@ -106,6 +108,7 @@ def sym_values(ctx, pipe, deep=False):
                      'kwargs': {'tags': {'k': ctx.sym_int('dtag')}, 'verbose': True}},
             'plain': {'class': 'ref.pobjects.Plain', 'args': [S('pa'), ctx.sym_int('pi')], 'kwargs': {'kw': S('pk')}},
             'objs': [PO.Custom(1, 2), {'class': 'ref.pobjects.Custom', 'args': [ctx.sym_int('oa')]}],
+            'loc': PO.Loc(ctx.sym_int('locroot')),
         }
         return vals, None, None
     raise ValueError(pipe)
